@@ -22,13 +22,14 @@ PROPS = {
     'C16': ['INSETLABEL', 'COPYALL', 'STALESIZE', 'QUEUEENDS', 'DRAIN', 'COLLECTALL', 'LOOPBOUND', 'INIT', 'ITERINVAL', 'STATICSTATE', 'SELFREF'],
     'C17': ['CANON', 'TEXT', 'BACKTRACK', 'COPYALL', 'REFCNT', 'STATICSTATE'],
     'C18': ['REFCNT', 'CANON', 'COPYALL', 'STATICSTATE'],
-    'C19': ['KIND', 'SIMMAP', 'DISPATCH', 'SIBLING', 'ACDUAL', 'ORDTOTAL', 'FRAMERESET', 'HASHEQ', 'MEMO', 'KEYFIELDS', 'ADDRKEY', 'QUEUEENDS', 'CLIOPT', 'FLAGRESET', 'INSETLABEL', 'PREPASS', 'CONGRMATCH', 'USEDSTATES', 'REFSTABLE', 'TUPLEPOS', 'STATICSTATE', 'TRANSLALL', 'SELFREF'],
+    'C19': ['KIND', 'SIMMAP', 'DISPATCH', 'SIBLING', 'ACDUAL', 'ORDTOTAL', 'FRAMERESET', 'HASHEQ', 'MEMO', 'KEYFIELDS', 'ADDRKEY', 'QUEUEENDS', 'CLIOPT', 'FLAGRESET', 'INSETLABEL', 'PREPASS', 'CONGRMATCH', 'USEDSTATES', 'REFSTABLE', 'TUPLEPOS', 'STATICSTATE', 'TRANSLALL', 'SELFREF', 'UNIONCONTRIB'],
     'C20': ['INIT', 'FALLOFF', 'PAIRFIELD', 'COPYALL', 'FRAMERESET', 'CACHELIFE', 'LOOPBOUND', 'ERASER', 'STALESIZE', 'ITER', 'NONEMPTY', 'USEMOVE', 'INSETLABEL', 'GENPRE', 'REFCNT', 'NULLPARAM', 'ITERINVAL', 'REFSTABLE', 'SIZEDINDEX', 'CANON', 'CHECKEDRET', 'STATICSTATE', 'SELFREF'],
 }
 
 # (property, rule) -> regex on the repo-relative file: only sites in matching files are attributed to that
 # property (rule health — floors, anchors — is always judged on all sites)
 FILTER = {
+    ('C19', 'UNIONCONTRIB'): r'bdd_',
     ('C09', 'TRANSLALL'): r'explicit_finite', ('C04', 'TRANSLALL'): r'explicit_tree', ('C05', 'TRANSLALL'): r'explicit_tree', ('C19', 'TRANSLALL'): r'explicit_tree', ('C07', 'SAMELEN'): r'bdd_', ('C08', 'SAMELEN'): r'bdd_',
     ('C02', 'QUEUEENDS'): r'explicit_tree', ('C03', 'QUEUEENDS'): r'explicit_tree', ('C08', 'QUEUEENDS'): r'bdd_', ('C10', 'QUEUEENDS'): r'explicit_finite', ('C15', 'QUEUEENDS'): r'explicit_tree_candidate|explicit_tree_unreach', ('C05', 'QUEUEENDS'): r'explicit_tree_unreach', ('C06', 'QUEUEENDS'): r'comp_down|explicit_tree_(useless|unreach)',
     ('C12', 'CHECKEDRET'): r'explicit_tree', ('C12', 'MEMBERQ'): r'explicit_tree', ('C10', 'MEMBERQ'): r'explicit_finite', ('C10', 'CHECKEDRET'): r'explicit_finite', ('C09', 'CHECKEDRET'): r'explicit_finite|comparators|macrostate', ('C01', 'CHECKEDRET'): r'explicit_tree_incl|down_tree|tree_incl|antichain', ('C07', 'CHECKEDRET'): r'bdd_|tree_incl|down_tree|antichain',
